@@ -800,6 +800,54 @@ example : streamFilters [([70, 105, 108, 116, 101, 114], .name [70, 108]), ([88]
      ([68, 80], .dict ⟨some 12, none, none, none⟩)]
     = [([65, 72, 120], some ⟨some 12, none, none, none⟩)] := rfl
 
+/-- Which key `get_filters` reads, for EVERY stream dictionary (any other keys, any order): `F` when
+present, else `Filter`; `DP` when present, else `DecodeParms`, else `FDecodeParms`; else the default. -/
+theorem dict_keys_priority {α β : Type} (fattrs : List (Bytes × α)) (pattrs : List (Bytes × β)) :
+    getAny FILTER_KEYS fattrs =
+      (match fattrs.find? (fun p => p.1 == [70]) with
+       | some p => some p.2
+       | none => match fattrs.find? (fun p => p.1 == [70, 105, 108, 116, 101, 114]) with
+         | some p => some p.2
+         | none => none) ∧
+    getAny PARMS_KEYS pattrs =
+      (match pattrs.find? (fun p => p.1 == [68, 80]) with
+       | some p => some p.2
+       | none => match pattrs.find? (fun p => p.1 == [68, 101, 99, 111, 100, 101, 80, 97, 114, 109, 115]) with
+         | some p => some p.2
+         | none => match pattrs.find? (fun p => p.1 == [70, 68, 101, 99, 111, 100, 101, 80, 97, 114, 109, 115]) with
+           | some p => some p.2
+           | none => none) := by
+  constructor
+  · simp only [FILTER_KEYS, getAny]
+    cases fattrs.find? (fun p => p.1 == [70]) with
+    | some p => rfl
+    | none =>
+      simp only []
+      cases fattrs.find? (fun p => p.1 == [70, 105, 108, 116, 101, 114]) <;> rfl
+  · simp only [PARMS_KEYS, getAny]
+    cases pattrs.find? (fun p => p.1 == [68, 80]) with
+    | some p => rfl
+    | none =>
+      simp only []
+      cases pattrs.find? (fun p => p.1 == [68, 101, 99, 111, 100, 101, 80, 97, 114, 109, 115]) with
+      | some p => rfl
+      | none =>
+        simp only []
+        cases pattrs.find? (fun p => p.1 == [70, 68, 101, 99, 111, 100, 101, 80, 97, 114, 109, 115]) <;> rfl
+
+/-- … hence the chain theorem for every stream dictionary whose winning keys carry the chain's arrays. -/
+theorem stream_dict_rt {inflate : Bytes → Bytes} (stages : List (Stage inflate)) (x z : Bytes)
+    (h : ChainEncodes stages x z) (fattrs : List (Bytes × FilterVal)) (pattrs : List (Bytes × ParmsVal))
+    (hf : getAny FILTER_KEYS fattrs = some (.list (stages.map (·.filt.1))))
+    (hp : getAny PARMS_KEYS pattrs = some (.list (stages.map (·.filt.2)))) :
+    streamDecodeDict inflate fattrs pattrs z = .ok x := by
+  simp only [streamDecodeDict, hf, hp, Option.getD_some]
+  exact stream_chain_rt stages x z h
+
+example : getAny FILTER_KEYS [([76], (1 : Nat)), ([70, 105, 108, 116, 101, 114], 2), ([70], 3)] = some 3 := by decide
+example : getAny PARMS_KEYS [([70, 68, 101, 99, 111, 100, 101, 80, 97, 114, 109, 115], (1 : Nat)),
+    ([68, 101, 99, 111, 100, 101, 80, 97, 114, 109, 115], 2)] = some 2 := by decide
+
 /-! ## Round 6: `Length` direct or indirect -/
 
 /-- `Length` direct or indirect: `int_value(dic["Length"])` gives the same value for the integer `n`
